@@ -13,8 +13,8 @@ structure StepRec (s : Sys) (op : Op) : Prop where
   inv : (contract s.fs true s.full op).2 = false → InvRec (s.op op).1.fs (s.op op).1.k (s.op op).1.lib
 
 /-- the maps and watches stay valid when the file system changes without touching a directory of the tree -/
-theorem InvOn.fs_change {cov : Ent → Prop} {fs fs1 : FS} {k : Kern} {lib : Lib} (inv : InvOn cov fs k lib) (hwf : fs1.WF)
-    (h : ∀ e, inTreeDir e = true → (e ∈ fs1.ents ↔ e ∈ fs.ents)) : InvOn cov fs1 k lib where
+theorem InvOn.fs_change {cov : Ent → Prop} {z : Option Nat} {fs fs1 : FS} {k : Kern} {lib : Lib} (inv : InvOn cov z fs k lib) (hwf : fs1.WF)
+    (h : ∀ e, inTreeDir e = true → (e ∈ fs1.ents ↔ e ∈ fs.ents)) : InvOn cov z fs1 k lib where
   wf := hwf
   isRec := inv.isRec
   kwd := inv.kwd
@@ -26,6 +26,8 @@ theorem InvOn.fs_change {cov : Ent → Prop} {fs fs1 : FS} {k : Kern} {lib : Lib
     exact ⟨e, (h e h2).mpr he, h1, h2, h3⟩
   cover := fun e he hd hc => inv.cover e ((h e hd).mp he) hd hc
   pfwDom := inv.pfwDom
+  zlt := inv.zlt
+  zdead := inv.zdead
   wfpInv := inv.wfpInv
   wfpNodup := inv.wfpNodup
   pfwNodup := inv.pfwNodup
